@@ -1,6 +1,8 @@
 package types
 
 import (
+	"fmt"
+
 	sdk "github.com/cosmos/cosmos-sdk/types"
 )
 
@@ -20,10 +22,17 @@ func DefaultParams() Params {
 
 // Validate validates the set of params
 func (p Params) Validate() error {
+	seen := make(map[string]struct{}, len(p.AllowedDenoms))
 	for _, denom := range p.AllowedDenoms {
 		if err := sdk.ValidateDenom(denom); err != nil {
 			return err
 		}
+
+		// a denom listed twice would be counted twice in the staked power
+		if _, ok := seen[denom]; ok {
+			return fmt.Errorf("duplicate allowed denom: %s", denom)
+		}
+		seen[denom] = struct{}{}
 	}
 
 	return nil
